@@ -183,8 +183,26 @@ def run(ctx):
             samples.append({"pair": name, "instructions": [p["ninstr_a"], p["ninstr_b"]], "syntactically_identical": same,
                             "kind": p["kind"], "states_TVN": p["states"][0] if p["states"] else None,
                             "A_enclosures": [encl(ea0[0]), encl(eb0[0])] if ea0 and eb0 else None})
+    # --- quantities the mixture algorithms derive for pure components / solvents (labelled tests on the public API)
+    der = impl.get("derived", {"comparisons": 0, "failures": []})
+    seen = set()
+    for f in der["failures"]:
+        key = (f["family"], f["quantity"])
+        if key in seen:
+            continue
+        seen.add(key)
+        V.violation(ctx, "%s: %s depends on the order / the way the (sub-)model was obtained: %s" % (
+            f["family"], f["quantity"], {k: v for k, v in f.items() if k not in ("family", "quantity")}),
+            {"broken": "oracle: derived pure-component / solvent quantities (harness/src/bin/c09.rs: derived)", "failing": f,
+             "all_failures": [g for g in der["failures"] if (g["family"], g["quantity"]) == key][:10]}, found_input=True)
     cov = {
         "obligations": obligations, "discharged": discharged,
+        "derived_quantity_comparisons": der["comparisons"],
+        "derived_quantities": "Henry constants (mixed and pure solvent, every component order, vs the binary model built directly), "
+                              "PhaseEquilibrium::vapor_pressure, State::critical_point_pure, ln_phi_pure_liquid, "
+                              "ln_symmetric_activity_coefficient for all 6 orders of three components (Peng-Robinson, PC-SAFT; associating "
+                              "PC-SAFT in the thorough tier) against the pure models built directly; EquationOfState<Joback, PengRobinson>::subset "
+                              "for 11 ordered index lists against the equation of state built directly (total c_p, s, h)",
         "checker_cmd": "make -C coq (coqc 8.16.1) ; coqc coq/gen/C09/<pair>.v",
         "trusted_base": V.COMMON_TRUSTED + ["Interval bigint backend at precision %d" % impl["prec"],
                                              "the list of pairs and how each member is constructed (harness/src/bin/c09.rs)"],
@@ -207,5 +225,6 @@ def run(ctx):
         "equality everywhere)",
         "the canonicaliser identifies constants by their value in the traced state; for a program with state-dependent constants "
         "(state_dependent_constants > 0) the theorem covers the states with the same coincidences",
-        "pure-component quantities inside mixture algorithms follow from the subset obligation and determinism of the solvers; not exercised here",
+        "pure-component / solvent quantities inside mixture algorithms (Henry constants, vapor pressures, critical points, activity "
+        "coefficients) and EquationOfState::subset with an ideal-gas part: compared on the public API for every component order (labelled test)",
     ])
